@@ -32,7 +32,7 @@ NONTRIVIAL_FEATURES = {'hour>=24', 'hour>=1', 'no-fraction', 'no-hours', 'frames
 def cases(ctx):
     rng = ctx.rng('c01')
     fmts = sorted(docs.GENERATORS)
-    for i in range(ctx.budget(4000, 240000)):
+    for i in range(ctx.budget(12000, 400000)):
         fmt = fmts[i % len(fmts)]
         yield docs.generate(fmt, rng, f'K{ctx.shard}.{i}', ctx)
 
